@@ -5,6 +5,7 @@ package main
 // known findings, replay and evidence.
 
 import (
+	"runtime"
 	"encoding/json"
 	"flag"
 	"fmt"
@@ -81,7 +82,7 @@ func cmdCheck(args []string) {
 	verif := fs.String("verif", "/verif", "")
 	prop := fs.String("prop", "", "property id")
 	tier := fs.String("tier", "quick", "quick|thorough")
-	jobs := fs.Int("jobs", 12, "parallel obligations")
+	jobs := fs.Int("jobs", defaultJobs(), "parallel obligations (each races three solvers)")
 	evidenceOut := fs.String("evidence", "", "evidence file (default /verif/evidence/<id>.json)")
 	updateBaseline := fs.Bool("update-baseline", false, "rewrite baseline/<id>.txt from this run")
 	fs.Parse(args)
@@ -552,4 +553,15 @@ func runHarness(h Harness, repo, verif, tier string, seed int, obligation string
 	}
 	res.ok = err == nil && len(res.fails) == 0 && res.cases > 0
 	return res
+}
+
+// defaultJobs: three solver processes race per obligation; keep the number of
+// processes close to the number of cores so that the per-query time limit means
+// roughly the same on every machine.
+func defaultJobs() int {
+	n := runtime.NumCPU() / 2
+	if n < 2 {
+		n = 2
+	}
+	return n
 }
